@@ -126,6 +126,9 @@ class PoolProp:
 
     model_name = "pool"
 
+    def nontrivial(self, cfg, schedule):
+        return len(schedule) >= 20 and any(c[0] > 0 for c in cfg.calls)
+
     def kind_of(self, cfg):
         return "factory" if cfg.factory else "plain"
 
@@ -273,6 +276,9 @@ class PoolProp:
                 running = [n for n, fin in env.final_finished.items() if n.startswith("W") and not fin]
                 if running:
                     return (f"workers still running after the pool context was left: {running}", "left-running")
+            if getattr(env, "ready_violations", None):
+                return (f"until_all_ready() called during a call returned while begin() of listed workers {env.ready_violations[0]} "
+                        f"had not completed", "ready")
             # until_all_ready returned => every listed worker completed begin()
             if cfg.wait_ready and not cfg.begin_fault:
                 seen_b = set()
@@ -343,13 +349,13 @@ class PoolProp:
             env, status, schedule, steps = self.run_sim(cfg, ch)
             total_steps += len(steps)
             case = {"cfg": cfg.to_json(), "chooser": list(desc), "schedule": schedule, "label": label, "status": status}
-            nontrivial = len(schedule) >= 20 and any(c[0] > 0 for c in cfg.calls)
+            nontrivial = self.nontrivial(cfg, schedule)
             report.add_case({k: case[k] for k in ("cfg", "chooser", "label", "status")},
                             hash((cfg.model_line(), tuple(schedule))) if nontrivial else None)
             report.count("chooser:" + desc[0])
             report.count("pool:" + self.kind_of(cfg))
             report.count("status:" + status.split(":")[0])
-            report.count(f"workers:{cfg.n_workers}")
+            report.count(f"workers:{getattr(cfg, 'n_workers', len(getattr(cfg, 'scripts', [])))}")
             report.traces_validated += 1
             verdict = self.oracle(cfg, env, status, steps)
             if verdict is not None:
@@ -384,7 +390,7 @@ class PoolProp:
             srng = random.Random(seed ^ 0xA11CE)
             t_end = time.time() + (150 if tier == "quick" else 900)
             for _ in range(n * 10):
-                cfg = self.gen_cfg(srng, tier)
+                cfg = self.gen_cfg(srng, "search")
                 desc, ch = self.gen_chooser(srng)
                 env, status, schedule, steps = self.run_sim(cfg, ch)
                 report.evaluations += 1
